@@ -10,6 +10,7 @@ Objects are numbered in order of first appearance (oids); scalars have oid 0.
 import collections
 import sys
 import os
+import uuid
 import warnings
 
 import numpy
@@ -19,14 +20,14 @@ import dlib  # noqa: E402
 
 warnings.simplefilter("ignore")
 
-from traits.api import (Any, Array, ComparisonMode, TraitType, Dict, HasTraits, Int, List, Set, Tuple, Union, Undefined,  # noqa: E402
+from traits.api import (Any, Array, ComparisonMode, TraitType, UUID, Dict, HasTraits, Int, List, Set, Tuple, Union, Undefined,  # noqa: E402
                         Uninitialized)
 from traits.trait_notifiers import StaticTraitChangeNotifyWrapper  # noqa: E402
 from traits.trait_list_object import TraitListObject  # noqa: E402
 from traits.trait_dict_object import TraitDictObject  # noqa: E402
 
 KINDS = ["KConst", "KListCopy", "KDictCopy", "KTraitList", "KTraitDict", "KTraitSet", "KFactory", "KMethod",
-         "KTuple", "KUnion", "KEvent", "KMethodInt", "KTuple2", "KArray"]
+         "KTuple", "KUnion", "KEvent", "KMethodInt", "KTuple2", "KArray", "KUuid"]
 MOD = 2305843009213693951
 
 
@@ -133,6 +134,8 @@ class World:
             return [v]
         if isinstance(v, numpy.ndarray):
             return [int(x) for x in v.tolist()]
+        if isinstance(v, uuid.UUID):
+            return []
         if isinstance(v, list):
             return [x if type(x) is int else -7 for x in v]
         if isinstance(v, dict):
@@ -153,6 +156,8 @@ class World:
             return {"shape": 0, "parts": [[0, [v]]]}
         if isinstance(v, numpy.ndarray):
             return {"shape": 8, "parts": [[self.oid(v), self.content(v)]]}
+        if isinstance(v, uuid.UUID):
+            return {"shape": 10, "parts": [[self.oid(v), []]]}
         if isinstance(v, list):
             shape = 5 if isinstance(v, TraitListObject) else 1
             return {"shape": shape, "parts": [[self.oid(v), self.content(v)]]}
@@ -229,6 +234,8 @@ class World:
                 ns["_%s_default" % a] = counted_int_method(n, c)
             elif k == "KTuple":
                 ns[a] = Tuple(List(Int, list(c)), Int(t["scalar"]), **md)
+            elif k == "KUuid":
+                ns[a] = UUID(**md) if md else UUID          # the documented declaration is the bare class
             elif k == "KArray":
                 ns[a] = Array(dtype=float, shape=(len(c),), value=[float(x) for x in c], **md)
             elif k == "KTuple2":
@@ -245,6 +252,12 @@ class World:
             ns["_"] = Int(wild["default"])
             for n in wild["static"]:
                 ns["_t%d_changed" % n] = static_handler(n)
+        if self.case.get("anytrait"):
+            def anytrait_changed(self, name, old, new):
+                c = w.name_code(name)
+                if 0 <= c < 999:        # the catch-all also sees "<name>_items" / trait_added events: not value changes
+                    w.logs.setdefault(id(self), []).append([-5, c, w.content(old), w.content(new)])
+            ns["_anytrait_changed"] = anytrait_changed
         shared = self.case.get("shared_ct")
         if shared:
             ct = Int(shared["value"]).as_ctrait()        # one ready-made CTrait object declared under several names
@@ -308,6 +321,8 @@ class World:
         elif dvt == 7 and isinstance(dv[1], tuple) and len(dv[1]) == 1 and isinstance(dv[1][0], numpy.ndarray):
             # Array: copy_default_value(<the validated class-level array>)
             t["kind"], t["content"], t["doid"] = "KArray", self.content(dv[1][0]), self.oid(dv[1][0])
+        elif dvt == 7 and getattr(dv[0], "__name__", "") == "_create_uuid":
+            t["kind"] = "KUuid"
         elif dvt == 0 and isinstance(dv, numpy.ndarray):
             t["kind"], t["content"], t["doid"] = "KConst", self.content(dv), self.oid(dv)
         elif dvt == 7 and declared is not None and shadow_kind is None:
@@ -354,6 +369,9 @@ class World:
                         t["nnotif"], t["static"] = t["nnotif"] + 1, True
                         rows.append([n + 3000, t])
                 rows.append([-3, self.tdef(proto, -3, ci)])
+            if "@" in cls.__prefix_traits__:      # the class defines _anytrait_changed
+                rows.append([-4, {"kind": "KEvent", "content": [], "scalar": 0, "doid": 0, "nnotif": 0, "static": False,
+                                  "cmp": 2, "label": 0}])
             rows.append([-1, self.tdef(cts["trait_added"], -1, ci)])
             out.append(rows)
         return out
